@@ -6,6 +6,9 @@ Suites
         (+ the driver's own check that lexing its text gives the token rows the theorems speak about)
   r   : `CNF.from_file(text)` outcome (formula or exception kind)    vs  `parseDimacs (lex text)`
   rc  : non-ASCII digit texts — only the contract "formula or ValueError" is observed (no model)
+  wl  : a formula over 10^4300 variables (4301 digits, first number outside `Printable` of Props/C06/Text.lean) —
+        only the contract is observed: the real writer raises ValueError (CPython's int->str digit limit) and what it
+        wrote before is not accepted as a formula; the model's theorem `dimacs_text_limit` says the reader rejects
 
 Oracles (independent of the model)
   w : an independent small DIMACS reader applied to the real writer's text gives back the in-memory
@@ -33,7 +36,8 @@ RULE = ("lex: ASCII texts over digits/signs/underscores/letters and every Python
         "r: valid texts in random layouts and their mutations (token deletion/duplication, sign flips, counts off by one, "
         "second p line, p after clauses, blank/comment lines inside clauses, +1, 1_0, tabs, CRLF, truncation, garbage tokens); "
         "distinct = distinct request line; non-trivial = at least one clause / one non-blank line")
-ASSUMPTIONS = ["the theorems speak about token rows; the step text -> token rows (lexer) is compared with Python on every case, not proven",
+ASSUMPTIONS = ["the reader theorems speak about token rows; the step text -> token rows (lexer) is proven only on the writer's own output "
+               "(Props/C06/Text.lean: dimacs_text_roundtrip, numbers up to 4300 digits); on every other text it is compared with Python on every case, not proven",
                "non-ASCII decimal digits accepted by Python's int() are outside the lexer model (suite rc observes the contract only)"]
 NOTES = ["D14 (fixed 81c9102): a header value or a variable label containing a line break yielded a non-comment line; the corpus (cls linebreak) keeps exercising it"]
 
@@ -173,7 +177,37 @@ def build_lex(info):
                 cls=info.get("kind", ""), nontrivial=bool(text.strip()), info=info)
 
 
+def build_wl(info):
+    u = bool(info.get("u", False))
+    n = 10 ** int(info["pow"])
+    eh = bool(info.get("export_header", True))
+
+    def oracle():
+        F = CNF()
+        F.update_variable_number(n)
+        out = io.StringIO()
+        try:
+            F.to_file(out, fileformat="dimacs", export_header=eh)
+        except ValueError:
+            pass
+        except Exception as e:
+            return {"writer_raised": type(e).__name__}
+        else:
+            return {"writer_did_not_raise_on_a_count_of_4301_digits": len(out.getvalue())}
+        try:
+            run_reader(out.getvalue(), u)
+        except ValueError:
+            return None
+        except Exception as e:
+            return {"reader_raised_on_partial_output": type(e).__name__}
+        return {"partial_output_accepted_as_a_formula": out.getvalue()[:200]}
+
+    return Case("wl", "nop", lambda: "OK -", oracle, cls="digit-limit", nontrivial=True, info=info)
+
+
 def build(suite, info):
+    if suite == "wl":
+        return build_wl(info)
     if suite == "w":
         return build_w(info)
     if suite in ("r", "rc"):
@@ -401,6 +435,8 @@ def hand_formulas():
         dict(n=3, clauses=[[1, 1, -1], [2, 2], [3, -3, 3]]), dict(n=12, clauses=[[10, -11, 12], [-10], [1, -12]]),
         dict(n=1000, clauses=[[1000, -999], [1, -1000]]), dict(n=4, clauses=[[1, 2, -3], [-2, 4]]),
         dict(n=10 ** 30, clauses=[[10 ** 30, -1]]),
+        # the largest numbers CPython prints and reads back (4300 digits): boundary of `Printable` in Props/C06/Text.lean
+        dict(n=10 ** 4300 - 1, clauses=[[10 ** 4300 - 1, -1], [-(10 ** 4300 - 1)]]),
     ]
     for b in base:
         b["src"] = "hand"
@@ -480,6 +516,7 @@ def cases(ctx):
             infos.append(("r", dict(text=[ord(c) for c in text], u=u, kind="corpus:" + kind)))
             infos.append(("lex", dict(text=[ord(c) for c in text], u=u, kind="corpus")))
     infos += writer_cases(common.sub_rng(seed, "C06", "w"), tier)
+    infos += [("wl", dict(pow=4300, u=u, export_header=eh)) for u in (False, True) for eh in (False, True)]
     infos += reader_cases(common.sub_rng(seed, "C06", "r"), 2500 if tier == "quick" else 120000)
     infos += lex_cases(common.sub_rng(seed, "C06", "lex"), 1500 if tier == "quick" else 40000)
     infos += nonascii_cases(common.sub_rng(seed, "C06", "na"), 300 if tier == "quick" else 10000)
